@@ -268,8 +268,48 @@ def check_helpers(w, rep):
             er = cm.vertcat(cm.ew(yaw, cm.ew(cm.ew(ymax, d2r, cm.pmul), w.it.mat_get(aetr, 3), cm.pmul), cm.padd),
                             cm.ew(cm.ew(rpmax, d2r, cm.pmul), w.it.mat_get(aetr, 1), cm.pmul), cm.ew(cm.ew(rpmax, d2r, cm.pmul), w.it.mat_get(aetr, 0), cm.pmul))
             want = w.param(w.call(Q, "from_Euler", w.elem(E, er)))
-            verdict(rep, "C14.helpers", "input_auto_level: q_r = SO3Quat.from_Euler((yaw + rudder, elevator, aileron) scaled)", q_r, want, (), w.where("cyecca.models.rdd2", "derive_input_auto_level"),
-                    "auto-level set-point is not the quaternion of (yaw + yaw stick, pitch stick, roll stick)")
+            inst = "input_auto_level: q_r = SO3Quat.from_Euler((yaw + rudder, elevator, aileron) scaled)"
+            what = "auto-level set-point is not the quaternion of (yaw + yaw stick, pitch stick, roll stick)"
+            Wh = w.where("cyecca.models.rdd2", "derive_input_auto_level")
+            v0, _ = decide_mat(q_r, want, ())
+            if v0 == EQUAL or not (isinstance(q_r, MatVal) and q_r.shape == (4, 1)):
+                verdict(rep, "C14.helpers", inst, q_r, want, (), Wh, what)
+            else:
+                # not built by that call: the same statement on what the quaternion denotes - its rotation matrix is the
+                # matrix of the Euler triple and it has unit norm (a quaternion is determined by these up to sign)
+                # change of variables: the yaw set-point (heading of q + stick) becomes one fresh angle
+                y0 = er.cells[0][0]
+                opq = [a for a in y0.atoms() if a.kind != "sym"] if hasattr(y0, "atoms") else [a for a in all_atoms(y0) if a.kind != "sym" and Poly.atom(a) in [Poly({m: 1}) for m in y0.t]]
+                if len(opq) == 1 and y0.t.get(((opq[0], 1),)) == 1:
+                    A = opq[0]
+                    psi = w.sym("psi~sp").s()
+                    repl = psi - (y0 - Poly.atom(A))
+                    memo = {}
+                    sub = lambda M: MatVal(M.r, M.c, [[deep_subs(c_, lambda a: repl if a is A or a == A else None, memo) for c_ in row] for row in M.cells], M.kind)
+                    q_r, er = sub(q_r), sub(er)
+                # ... and the stick deflections are measured in units of 1/pi (the scale factors carry pi): a bijective
+                # change of variables that leaves rational multiples of plain angles
+                pis = [a for a in all_atoms(er.cells[1][0]) | all_atoms(er.cells[2][0]) if a.kind == "sym" and a.key[0] == "pi"]
+                if pis:
+                    from .c16 import subs_syms
+                    ipi = Poly({((pis[0], -1),): 1})
+                    mp = {a: Poly.atom(a) * ipi for a in sym_atoms_of(aetr)[:2]}
+                    q_r, er = subs_syms(q_r, mp), subs_syms(er, mp)
+                with with_maxdeg(30):
+                    Ra = w.call(w.elem(Q, q_r), "to_Matrix")
+                    Rb = w.call(w.elem(E, er), "to_Matrix")
+                    n2 = cm.sumsqr(q_r)
+                    v1, d1 = decide_mat(Ra, Rb, ())
+                    v2, d2 = decide_mat(n2, cm.to_mat(1), ())
+                rep.note("input_auto_level decided on rotation matrix / norm: %s / %s" % (v1, v2))
+                if v2 == DIFFERENT:
+                    rep.fail("C14.helpers", inst, "%s: the set-point quaternion is not unit, |q|^2 - 1: %s" % (what, d2), where=Wh)
+                elif v1 == DIFFERENT and v2 == EQUAL:
+                    rep.fail("C14.helpers", inst, "%s: the unit quaternion returned denotes another rotation, %s" % (what, d1), where=Wh)
+                elif v1 == EQUAL and v2 == EQUAL:
+                    rep.ok("C14.helpers", inst, fact={"decided_on": "rotation matrix and unit norm"})
+                else:
+                    verdict(rep, "C14.helpers", inst, q_r, want, (), Wh, what)
     # input_velocity q_sp
     ok, eqs = guarded(w, rep, "C14.helpers", "derive_input_velocity()", lambda: w.callf(rdd2["derive_input_velocity"]))
     if ok:
